@@ -15,7 +15,7 @@ from pyexpat import XMLParserType
 
 from xmlschema.aliases import IOType
 from xmlschema.exceptions import XMLSchemaTypeError, XMLSchemaValueError, \
-    XMLResourceError, XMLResourceForbidden, XMLResourceOSError
+    XMLResourceError, XMLResourceForbidden, XMLResourceOSError, XMLResourceParseError
 from xmlschema.utils.streams import DefusableReader
 
 
@@ -85,6 +85,9 @@ def defuse_xml(fp: IOType, rewind: bool = True) -> IOType:
         pass  # the purpose is to defuse not to check xml source syntax
     except OSError as err:
         raise XMLResourceOSError(err)
+    except (LookupError, ValueError) as err:
+        # An unknown or unsupported encoding: the parser can't load the XML data either
+        raise XMLResourceParseError(f"invalid XML data: {err}") from err
 
     if rewind:
         try:
